@@ -181,8 +181,11 @@ func checkFlowJSON(v9 bool, out []byte, agent string, hdr [6]uint32, want [][]re
 	if dec.More() {
 		return "trailing", "more than one document"
 	}
-	if len(doc) != 3 {
-		return "top-keys", fmt.Sprint(len(doc))
+	// (keys the statement does not name may be present; the ones it names must be, with the decoded content)
+	for _, k := range []string{"AgentID", "Header", "DataSets"} {
+		if _, ok := doc[k]; !ok {
+			return "top-keys", "no " + k
+		}
 	}
 	if a, _ := doc["AgentID"].(string); a != agent {
 		return "agent", fmt.Sprintf("AgentID %q, expected %q", doc["AgentID"], agent)
@@ -192,7 +195,7 @@ func checkFlowJSON(v9 bool, out []byte, agent string, hdr [6]uint32, want [][]re
 		names = []string{"Version", "Count", "SysUpTime", "UNIXSecs", "SeqNum", "SrcID"}
 	}
 	h, _ := doc["Header"].(map[string]interface{})
-	if len(h) != len(names) {
+	if len(h) < len(names) {
 		return "header-keys", fmt.Sprint(h)
 	}
 	for i, n := range names {
@@ -214,12 +217,13 @@ func checkFlowJSON(v9 bool, out []byte, agent string, hdr [6]uint32, want [][]re
 			if !ok {
 				return "field-shape", fmt.Sprintf("record %d field %d", i, j)
 			}
-			nkeys := 2
-			if w.PEN != 0 {
-				nkeys = 3
+			if e, has := f["E"]; has && w.PEN == 0 {
+				if x, _ := e.(json.Number); string(x) != "0" {
+					return "field-keys", fmt.Sprintf("record %d field %d carries an enterprise number although the element has none: %v", i, j, f)
+				}
 			}
-			if len(f) != nkeys {
-				return "field-keys", fmt.Sprintf("record %d field %d: %v", i, j, f)
+			if _, has := f["V"]; !has {
+				return "field-keys", fmt.Sprintf("record %d field %d has no value: %v", i, j, f)
 			}
 			if x, _ := f["I"].(json.Number); string(x) != fmt.Sprint(w.ID) {
 				return "field-id", fmt.Sprintf("record %d field %d: I=%v expected %d", i, j, f["I"], w.ID)
